@@ -361,7 +361,9 @@ func wireS2C(w *World, c *wireConn, seq int64, emit bool, f *FrameInfo, viol vio
 			return
 		}
 		c.settings++
-		c.srvWindow = f.Window
+		if c.settings == 1 {
+			c.srvWindow = f.Window // only the first settings frame counts
+		}
 		if judge {
 			if !c.meta.Negotiated {
 				viol("C11", "settings-unnegotiated", seq, f, "settings sent although the client did not advertise negotiation")
